@@ -10,6 +10,24 @@ only when both evaluations report it (see engine.run_check)."""
 import copy, re
 from . import core
 
+import glob, os
+
+_NAMED = None
+
+
+def named_by_rules():
+    """identifiers that occur in the rule sources: a function the rules talk about by name is part of their vocabulary (an
+    atom such as read_string or cache_frame) and is never dissolved into its callers"""
+    global _NAMED
+    if _NAMED is None:
+        words = set()
+        here = os.path.dirname(os.path.dirname(os.path.abspath(__file__)))
+        for f in glob.glob(os.path.join(here, "rules", "*.py")):
+            words |= set(re.findall(r"[A-Za-z_][A-Za-z0-9_]*", open(f).read()))
+        _NAMED = words
+    return _NAMED
+
+
 MAX_CALLEE_BLOCKS = 450
 MAX_TOTAL_BLOCKS = 7000
 MAX_DEPTH = 3
@@ -126,6 +144,8 @@ def inlined_view(prog, root):
         g = prog.raw_fns[res]
         if g.file != root.file or g.id in stack or g.kind == "closure":
             return None
+        if g.name in named_by_rules():
+            return None
         if len(g.blocks) > MAX_CALLEE_BLOCKS or len(blocks) + len(g.blocks) > MAX_TOTAL_BLOCKS:
             return None
         if len(call.args) != g.nargs:
@@ -192,18 +212,23 @@ def inlined_view(prog, root):
                     if isinstance(v, list) and v:
                         names["%s@%s" % (k, g.id.rsplit("::", 1)[-1])] = [v[0] + glb] + list(v[1:])
                 nt = nb["term"]
-                # parameter block
-                pblk = {"cleanup": False, "idom": None, "stmts": [], "term": None}
+                # layout: block B (statements) -> parameter block -> copy of the callee -> marker block holding the original
+                # call terminator (same arguments, destination and continuation). "After the call" therefore still means
+                # after the callee returned, "before the call" includes the callee's body.
+                pblk = {"cleanup": nb.get("cleanup", False), "idom": None, "stmts": [], "term": None, "inl": g.id}
                 for ai, a in enumerate(nt["args"]):
-                    pblk["stmts"].append({"l": nt.get("l", 0), "x": True, "dst": [glb + 1 + ai], "rv": {"r": "use", "o": [a]}})
+                    pblk["stmts"].append({"l": nt.get("l", 0), "x": True, "dst": [glb + 1 + ai], "rv": {"r": "use", "o": [copy.deepcopy(a) if "k" in a else ({"c": (a.get("c") or a.get("m"))})]}})
                 pidx = len(blocks)
                 blocks.append(pblk)
-                entry = copy_fn(g, glb, gpb, stack + [g.id], nt.get("to"), nt["dst"], nt.get("unwind"), False)
+                midx = len(blocks)
+                marker = {"cleanup": nb.get("cleanup", False), "idom": None, "stmts": [], "term": dict(nt)}
+                marker["term"]["inlined"] = g.id
+                blocks.append(marker)
+                scratch = len(locals_)
+                locals_.append(g.locals[0])
+                entry = copy_fn(g, glb, gpb, stack + [g.id], midx, [scratch], nt.get("unwind"), False)
                 pblk["term"] = {"t": "goto", "to": entry}
-                nt2 = dict(nt)
-                nt2["to"] = pidx
-                nt2["inlined"] = g.id
-                nb["term"] = nt2
+                nb["term"] = {"t": "goto", "to": pidx}
                 count[0] += 1
         return base
 
